@@ -74,8 +74,12 @@ FTry(hs) == [k |-> "try", hs |-> hs, act |-> 0, saved |-> [i \in 0..Len(hs) |-> 
 \*   sig: "run" (keep going) "yield" "done" "terminate" "termsim" "reject" "pick"
 \*   om/orc/wl: oracle mode (compose blocks and monitors): random picks are read from the script `orc`
 \*   guessed by the enclosing action, their weights logged in `wl` (see AskPick)
+\*   d: (object coroutines) the behaviour definition the object was created with, 0 for none;
+\*   own: the id of the sub-scenario instance whose setup block created the object (0: the top-level scenario)
+\*   n/new: (compose blocks) the number of objects existing so far and the behaviour definitions of the objects
+\*   created during the current resume by the setup blocks of the sub-scenarios it invoked
 NewCor(st) == [st |-> st, out |-> <<>>, sig |-> "run", acts |-> <<>>, chk |-> FALSE, opts |-> <<>>, pk |-> "none",
-               om |-> FALSE, orc |-> <<>>, wl |-> <<>>]
+               om |-> FALSE, orc |-> <<>>, wl |-> <<>>, d |-> 0, own |-> 0, n |-> 0, new |-> <<>>]
 NewCorO(st) == [NewCor(st) EXCEPT !.om = TRUE]
 OrcFail == {"orcshort", "orcbad"}    \* the guessed script is too short / names an alternative that does not exist
 
@@ -85,6 +89,9 @@ Push(c, f) == [c EXCEPT !.st = Append(c.st, f)]
 SetTop(c, f) == [c EXCEPT !.st = [c.st EXCEPT ![Len(c.st)] = f]]
 Sig(c, s) == [c EXCEPT !.sig = s]
 Emit(c, e) == [c EXCEPT !.out = Append(c.out, e)]
+\* the coroutine of an object created with behaviour definition d (0: no behaviour)
+ObjCor(q, d, own) == IF d = 0 THEN Sig(NewCor(<<>>), "done")
+                     ELSE [NewCor(<<FBeh(d), FSeq(Cases[q].defs[d].body)>>) EXCEPT !.d = d, !.own = own]
 
 \* index of the nearest behaviour frame at or below position p (0 if none)
 RECURSIVE NearestBeh(_, _)
@@ -190,19 +197,39 @@ UnwindReturnImpl(c, k) ==
 Sdef(q, s) == Cases[q].sdefs[s]
 NewMon(q, d) == NewCorO(<<FBeh(d), FSeq(Def(q, d).body)>>)
 NewInst(q, s) ==
-  [s |-> s, el |-> 0, on |-> TRUE,
+  [s |-> s, el |-> 0, on |-> TRUE, id |-> 0,     \* id: the number of the first object it created (0 if none)
    cor |-> IF Sdef(q, s).hascompose THEN NewCorO(<<FSeq(Sdef(q, s).compose)>>) ELSE Sig(NewCor(<<>>), "done"),
    mons |-> [i \in 1..Len(Sdef(q, s).monitors) |-> NewMon(q, Sdef(q, s).monitors[i])]]
 StopInst(I) == [I EXCEPT !.on = FALSE, !.mons = <<>>, !.cor = Sig(NewCor(<<>>), "done")]
 SubsOf(I) == IF I.cor.st # <<>> /\ Top(I.cor).k = "par" THEN Top(I.cor).subs ELSE <<>>
 SetSubs(I, subs) == [I EXCEPT !.cor = SetTop(I.cor, [Top(I.cor) EXCEPT !.subs = subs])]
+\* `terminate` executed by a behaviour ends the scenario that created its agent, if that is still running
+RECURSIVE StopById(_, _)
+StopById(I, x) == IF ~I.on THEN I
+                  ELSE IF I.id = x THEN StopInst(I)
+                  ELSE IF SubsOf(I) = <<>> THEN I
+                  ELSE SetSubs(I, [i \in 1..Len(SubsOf(I)) |-> StopById(SubsOf(I)[i], x)])
 
-\* invoking sub-scenarios: each is prepared (preconditions, then its setup block) and started, in order
-RECURSIVE SubGuardsOK(_, _, _)
-SubGuardsOK(q, ss, tt) == ss = <<>> \/ (AllTrue(q, Sdef(q, Head(ss)).pre, tt) /\ SubGuardsOK(q, Tail(ss), tt))
-StartSubs(q, c, ss, tt) ==
-  IF SubGuardsOK(q, ss, tt) THEN Push(c, FPar([i \in 1..Len(ss) |-> NewInst(q, ss[i])]))
-  ELSE Sig(c, "guardpre")
+(* Invoking sub-scenarios, one after the other: the preconditions; then the setup block, which      *)
+(* creates the scenario's objects in the simulator at once (numbered after the existing ones); then  *)
+(* the start: the behaviours of its agents are assigned (their guards are checked), its monitors      *)
+(* start.  The new agents are scheduled from this very step on; nothing stops their behaviours when   *)
+(* the scenario that created them ends.                                                               *)
+RECURSIVE StartSubsFrom(_, _, _, _, _, _)
+StartSubsFrom(q, c, ss, i, insts, tt) ==
+  IF i > Len(ss) THEN Push(c, FPar(insts))
+  ELSE LET d == Sdef(q, ss[i]) IN
+       IF ~AllTrue(q, d.pre, tt) THEN Sig(c, "guardpre")
+       ELSE LET k == Len(d.objs)
+                c1 == [c EXCEPT !.out = c.out \o [j \in 1..k |-> <<"create", c.n + j>>], !.n = c.n + k,
+                            !.new = c.new \o [j \in 1..k |-> <<d.objs[j], c.n + 1>>]]
+                bad == {j \in 1..k : d.objs[j] # 0 /\ ~GuardsOK(q, d.objs[j], tt)}
+            IN IF bad # {}
+               THEN LET j == CHOOSE x \in bad : \A y \in bad : x <= y IN
+                    Sig(c1, IF AllTrue(q, Def(q, d.objs[j]).pre, tt) THEN "guardinv" ELSE "guardpre")
+               ELSE StartSubsFrom(q, c1, ss, i + 1,
+                                  Append(insts, [NewInst(q, ss[i]) EXCEPT !.id = IF k > 0 THEN c.n + 1 ELSE 0]), tt)
+StartSubs(q, c, ss, tt) == StartSubsFrom(q, c, ss, 1, <<>>, tt)
 
 \* ---- random picks
 \* enabled scenario items of a choose/shuffle in a compose block: <<s, w>> whose preconditions hold now
@@ -231,25 +258,27 @@ AskPick(q, c, opts, pk, tt) ==
   ELSE PickStep(q, [c1 EXCEPT !.orc = Tail(c.orc), !.wl = Append(c.wl, PickWeight(c1, Head(c.orc)) \o <<Head(c.orc)>>)],
                 Head(c.orc), tt)
 
-RECURSIVE Micro(_, _, _), Run(_, _, _), ScenStep(_, _, _, _), StepSubs(_, _, _, _, _)
+RECURSIVE Micro(_, _, _), Run(_, _, _), ScenStep(_, _, _, _, _), StepSubs(_, _, _, _, _, _)
 
 \* one time step of a scenario instance (step 1 of the procedure, items a-e):
 \* time limit; compose block for one step; terminate-when conditions
 \* (orc: the oracle script for the picks of this step; the result carries what is left of it and the weights used)
-ScenStep(q, I, tt, orc) ==
+\* (n: the number of objects existing so far; the result carries the new count and the objects created)
+ScenStep(q, I, tt, orc, n) ==
   LET d == Sdef(q, I.s) IN
   IF d.termAfter # <<>> /\ LimitReached(q, I.el, d.termAfter[1], d.termAfter[2])
-  THEN [inst |-> StopInst(I), out |-> <<>>, sig |-> "stop", orc |-> orc, wl |-> <<>>]
+  THEN [inst |-> StopInst(I), out |-> <<>>, sig |-> "stop", orc |-> orc, wl |-> <<>>, n |-> n, new |-> <<>>]
   ELSE LET I1 == [I EXCEPT !.el = I.el + 1]
-           c0 == [I1.cor EXCEPT !.out = <<>>, !.sig = "run", !.acts = <<>>, !.orc = orc, !.wl = <<>>]
+           c0 == [I1.cor EXCEPT !.out = <<>>, !.sig = "run", !.acts = <<>>, !.orc = orc, !.wl = <<>>, !.n = n, !.new = <<>>]
            c == IF d.hascompose
                 THEN (IF I1.cor.sig = "yield" THEN Run(q, Walk(q, c0, 1, tt), tt) ELSE Run(q, c0, tt))
                 ELSE I1.cor
-           I2 == [I1 EXCEPT !.cor = [c EXCEPT !.orc = <<>>, !.wl = <<>>]]
+           I2 == [I1 EXCEPT !.cor = [c EXCEPT !.orc = <<>>, !.wl = <<>>, !.n = 0, !.new = <<>>]]
            out == IF d.hascompose THEN c.out ELSE <<>>
            left == IF d.hascompose THEN c.orc ELSE orc
            wl == IF d.hascompose THEN c.wl ELSE <<>>
-           R(inst, sig) == [inst |-> inst, out |-> out, sig |-> sig, orc |-> left, wl |-> wl]
+           R(inst, sig) == [inst |-> inst, out |-> out, sig |-> sig, orc |-> left, wl |-> wl,
+                            n |-> IF d.hascompose THEN c.n ELSE n, new |-> IF d.hascompose THEN c.new ELSE <<>>]
        IN IF d.hascompose /\ c.sig \in {"reject", "guardpre", "guardinv"} \cup OrcFail THEN R(I2, c.sig)
           ELSE IF d.hascompose /\ c.sig = "termsim" THEN R(StopInst(I2), "termsim")
           ELSE IF d.hascompose /\ c.sig \in {"terminate", "done"} THEN R(StopInst(I2), "stop")
@@ -258,14 +287,16 @@ ScenStep(q, I, tt, orc) ==
                ELSE R(I2, "cont")
 
 \* step the sub-scenarios of a `do` in order; those that go on are kept
-StepSubs(q, subs, i, tt, orc) ==
-  IF i > Len(subs) THEN [subs |-> <<>>, out |-> <<>>, sig |-> "cont", orc |-> orc, wl |-> <<>>]
-  ELSE LET r == ScenStep(q, subs[i], tt, orc) IN
+StepSubs(q, subs, i, tt, orc, n) ==
+  IF i > Len(subs) THEN [subs |-> <<>>, out |-> <<>>, sig |-> "cont", orc |-> orc, wl |-> <<>>, n |-> n, new |-> <<>>]
+  ELSE LET r == ScenStep(q, subs[i], tt, orc, n) IN
        IF r.sig \in {"termsim", "reject", "guardpre", "guardinv"} \cup OrcFail
-       THEN [subs |-> <<r.inst>> \o SubSeq(subs, i + 1, Len(subs)), out |-> r.out, sig |-> r.sig, orc |-> r.orc, wl |-> r.wl]
-       ELSE LET rest == StepSubs(q, subs, i + 1, tt, r.orc) IN
+       THEN [subs |-> <<r.inst>> \o SubSeq(subs, i + 1, Len(subs)), out |-> r.out, sig |-> r.sig, orc |-> r.orc, wl |-> r.wl,
+             n |-> r.n, new |-> r.new]
+       ELSE LET rest == StepSubs(q, subs, i + 1, tt, r.orc, r.n) IN
             [subs |-> (IF r.sig = "cont" THEN <<r.inst>> ELSE <<>>) \o rest.subs,
-             out |-> r.out \o rest.out, sig |-> rest.sig, orc |-> rest.orc, wl |-> r.wl \o rest.wl]
+             out |-> r.out \o rest.out, sig |-> rest.sig, orc |-> rest.orc, wl |-> r.wl \o rest.wl,
+             n |-> rest.n, new |-> r.new \o rest.new]
 
 \* one micro-step of a coroutine whose signal is "run"
 Micro(q, c, tt) ==
@@ -342,8 +373,8 @@ Micro(q, c, tt) ==
                   ELSE AskPick(q, c, en, IF f.sk THEN "sitems" ELSE "items", tt)
   [] f.k = "try" -> Pop(c)    \* (not reached: blocks are dispatched from the seq case)
   [] f.k = "par" ->   \* sub-scenarios: drop those stopped meanwhile, step the others in order
-        LET r == StepSubs(q, SelectSeq(f.subs, LAMBDA I : I.on), 1, tt, c.orc)
-            c1 == [c EXCEPT !.out = c.out \o r.out, !.orc = r.orc, !.wl = c.wl \o r.wl]
+        LET r == StepSubs(q, SelectSeq(f.subs, LAMBDA I : I.on), 1, tt, c.orc, c.n)
+            c1 == [c EXCEPT !.out = c.out \o r.out, !.orc = r.orc, !.wl = c.wl \o r.wl, !.n = r.n, !.new = c.new \o r.new]
         IN IF r.sig # "cont" THEN Sig(SetTop(c1, [f EXCEPT !.subs = r.subs]), r.sig)
            ELSE IF r.subs = <<>>
                 THEN (LET c2 == Pop(c1) IN
@@ -368,7 +399,7 @@ AfterPick(q, c, i, tt) == Run(q, PickStep(q, [c EXCEPT !.out = <<>>], i, tt), tt
 Scripts == UNION {[1..n -> 1..C.orcalt] : n \in 0..C.orcmax}
 NA == Len(C.agents)
 Agents == {a \in 1..NA : C.agents[a] # 0}
-NoInst == [s |-> 0, el |-> 0, on |-> FALSE, cor |-> Sig(NewCor(<<>>), "done"), mons |-> <<>>]
+NoInst == [s |-> 0, el |-> 0, on |-> FALSE, id |-> 0, cor |-> Sig(NewCor(<<>>), "done"), mons |-> <<>>]
 
 Init ==
   /\ cid \in 1..NC
@@ -391,8 +422,7 @@ Setup ==
          topbad == ~AllTrue(cid, Sdef(cid, C.top).pre, 0)
          bad == \E a \in Agents : ~GuardsOK(cid, C.agents[a], 0)
      IN /\ ev' = IF topbad \/ bad THEN creates ELSE Append(creates, <<"read", 0>>)
-        /\ beh' = [a \in 1..NA |-> IF C.agents[a] = 0 THEN Sig(NewCor(<<>>), "done")
-                                   ELSE NewCor(<<FBeh(C.agents[a]), FSeq(Def(cid, C.agents[a]).body)>>)]
+        /\ beh' = [a \in 1..NA |-> ObjCor(cid, C.agents[a], 0)]
         /\ top' = NewInst(cid, C.top)
         /\ IF topbad THEN EndRej("guardpre") /\ UNCHANGED ai
            ELSE IF bad
@@ -407,14 +437,17 @@ ScenarioStep ==
   /\ phase = "scenario"
   /\ IF ~top.on THEN phase' = "record" /\ UNCHANGED <<top, ev, flag, ending>>
      ELSE \E sc \in Scripts :     \* the random picks made by compose blocks in this step
-          LET r == ScenStep(cid, top, t, sc) IN
+          LET r == ScenStep(cid, top, t, sc, Len(beh)) IN
           /\ r.sig \notin OrcFail /\ r.orc = <<>>
           /\ top' = r.inst /\ ev' = ev \o r.out /\ ws' = ws \o r.wl
+          \* objects created by the setup blocks of sub-scenarios invoked in this step
+          /\ beh' = beh \o [j \in 1..Len(r.new) |-> ObjCor(cid, r.new[j][1], r.new[j][2])]
+          /\ pend' = pend \o [j \in 1..Len(r.new) |-> <<>>]
           /\ IF r.sig \in Rejections THEN EndRej(r.sig) /\ UNCHANGED flag
              ELSE /\ phase' = "record" /\ ending' = ending
                   /\ flag' = IF r.sig \in {"stop", "termsim"} THEN <<"scenarioComplete">> ELSE flag
-  /\ top.on \/ ws' = ws
-  /\ UNCHANGED <<cid, t, beh, ai, pend, nexec, ntraj, pick>>
+  /\ top.on \/ (ws' = ws /\ beh' = beh /\ pend' = pend)
+  /\ UNCHANGED <<cid, t, ai, nexec, ntraj, pick>>
 
 \* step 2: record initial (at time 0) and record, a scenario's own before its sub-scenarios'; one trajectory state
 RECURSIVE RecEvents(_, _, _, _), RecEventsSeq(_, _, _, _)
@@ -495,27 +528,42 @@ TerminationChecks ==
   /\ ai' = 1
   /\ ev' = IF flag = <<>> /\ ~TopTermSim /\ ~(C.maxSteps > 0 /\ t >= C.maxSteps)
            THEN Append(ev, <<"sched", t>>) ELSE ev
-  /\ pend' = [a \in 1..NA |-> <<>>]
+  /\ pend' = [a \in 1..Len(beh) |-> <<>>]
   /\ UNCHANGED <<cid, t, beh, top, nexec, ntraj, flag, ws, pick>>
 
 Sched == C.sched[(t % Len(C.sched)) + 1]      \* the permutation the simulator returns for this step
+
+(* What follows the resumption of agent a's behaviour (coroutine c after the resume): a rejection; a  *)
+(* pending random pick; `terminate simulation`, or `terminate` by an agent of the top-level scenario:  *)
+(* the simulation ends; `terminate` by an agent created by a sub-scenario: that sub-scenario instance   *)
+(* stops if it is still running (nothing happens otherwise) and the agent takes no action in this step; *)
+(* otherwise the chosen actions are noted and the next agent of the schedule is resumed.                *)
+AfterBeh(a, c) ==
+  CASE c.sig \in Rejections ->
+         /\ EndRej(c.sig) /\ beh' = [beh EXCEPT ![a] = c] /\ pick' = <<>> /\ UNCHANGED <<pend, ai, top>>
+    [] c.sig = "pick" ->
+         /\ beh' = [beh EXCEPT ![a] = c] /\ pick' = <<"beh", a>> /\ UNCHANGED <<pend, ai, phase, ending, top>>
+    [] c.sig = "termsim" \/ (c.sig = "terminate" /\ c.own = 0) ->
+         /\ End("terminatedByBehavior") /\ beh' = [beh EXCEPT ![a] = c] /\ pick' = <<>> /\ UNCHANGED <<pend, ai, top>>
+    [] c.sig = "terminate" ->
+         /\ top' = StopById(top, c.own)
+         /\ beh' = [beh EXCEPT ![a] = [c EXCEPT !.sig = "yield", !.acts = <<>>, !.chk = TRUE]]
+         /\ pend' = [pend EXCEPT ![a] = <<>>] /\ ai' = ai + 1 /\ pick' = <<>> /\ UNCHANGED <<phase, ending>>
+    [] OTHER ->
+         /\ beh' = [beh EXCEPT ![a] = c] /\ pend' = [pend EXCEPT ![a] = c.acts] /\ ai' = ai + 1
+         /\ pick' = <<>> /\ UNCHANGED <<phase, ending, top>>
 
 \* step 5: each agent's behaviour, exactly once, in schedule order
 BehaviorResume ==
   /\ phase = "behaviors" /\ pick = <<>>
   /\ IF ai > Len(Sched)
-     THEN phase' = "actions" /\ UNCHANGED <<beh, ev, pend, ending, ai, pick>>
+     THEN phase' = "actions" /\ UNCHANGED <<beh, ev, pend, ending, ai, pick, top>>
      ELSE LET a == Sched[ai] IN
-          IF C.agents[a] = 0 THEN ai' = ai + 1 /\ UNCHANGED <<beh, ev, pend, ending, phase, pick>>
+          IF a > Len(beh) \/ beh[a].d = 0      \* not created (yet), or an object without behaviour
+          THEN ai' = ai + 1 /\ UNCHANGED <<beh, ev, pend, ending, phase, pick, top>>
           ELSE LET c == Resume(cid, beh[a], t) IN
-               /\ beh' = [beh EXCEPT ![a] = c]
-               /\ ev' = ev \o c.out
-               /\ CASE c.sig \in Rejections -> EndRej(c.sig) /\ UNCHANGED <<pend, ai, pick>>
-                    [] c.sig = "pick" -> pick' = <<"beh", a>> /\ UNCHANGED <<pend, ai, phase, ending>>
-                    [] c.sig \in {"terminate", "termsim"} -> End("terminatedByBehavior") /\ UNCHANGED <<pend, ai, pick>>
-                    [] OTHER -> /\ pend' = [pend EXCEPT ![a] = c.acts] /\ ai' = ai + 1
-                                /\ UNCHANGED <<phase, ending, pick>>
-  /\ UNCHANGED <<cid, t, top, nexec, ntraj, flag, ws>>
+               ev' = ev \o c.out /\ AfterBeh(a, c)
+  /\ UNCHANGED <<cid, t, nexec, ntraj, flag, ws>>
 
 \* a random pick requested by a behaviour (do choose / do shuffle / run-time distribution)
 Pick ==
@@ -526,20 +574,15 @@ Pick ==
         /\ ws' = Append(ws, PickWeight(c, i) \o <<i>>)   \* (the alternative taken is kept: two picks with the same
                                                          \*  observable outcome stay two behaviours, each with its weight)
         /\ ev' = ev \o c2.out
-        /\ beh' = [beh EXCEPT ![pick[2]] = c2]
-        /\ CASE c2.sig \in Rejections -> EndRej(c2.sig) /\ UNCHANGED <<pend, ai>> /\ pick' = <<>>
-             [] c2.sig = "pick" -> UNCHANGED <<pend, ai, phase, ending, pick>>
-             [] c2.sig \in {"terminate", "termsim"} -> End("terminatedByBehavior") /\ UNCHANGED <<pend, ai>> /\ pick' = <<>>
-             [] OTHER -> /\ pend' = [pend EXCEPT ![pick[2]] = c2.acts] /\ ai' = ai + 1
-                         /\ UNCHANGED <<phase, ending>> /\ pick' = <<>>
-  /\ UNCHANGED <<cid, t, top, nexec, ntraj, flag>>
+        /\ AfterBeh(pick[2], c2)
+  /\ UNCHANGED <<cid, t, nexec, ntraj, flag>>
 
 \* steps 6-9
 ExecuteActions ==
   /\ phase = "actions"
   \* (the entries of the action dict are in schedule order: "the order of agents in the dict should be
   \*  respected in case the order of actions matters"; every scheduled agent with a behaviour has one)
-  /\ ev' = Append(ev, <<"exec", t, pend, SelectSeq(Sched, LAMBDA a : C.agents[a] # 0)>>) /\ nexec' = nexec + 1
+  /\ ev' = Append(ev, <<"exec", t, pend, SelectSeq(Sched, LAMBDA a : a <= Len(beh) /\ beh[a].d # 0)>>) /\ nexec' = nexec + 1
   /\ phase' = "simstep"
   /\ UNCHANGED <<cid, t, beh, top, ai, pend, ntraj, flag, ending, ws, pick>>
 SimulatorStep ==
@@ -583,7 +626,7 @@ OneEntryPerStep ==
   /\ (phase \in {"monitors", "termination", "behaviors", "actions", "simstep", "tick"}) => (ntraj = t + 1)
   /\ (ending # <<>> /\ ending[1] # "rejected") => (nexec = t /\ ntraj = t + 1)
 \* each agent is resumed at most once per step (its actions are set only in the behaviours phase)
-EachAgentOncePerStep == [][\A a \in 1..NA : (pend'[a] # pend[a]) => (phase \in {"behaviors", "termination"})]_vars
+EachAgentOncePerStep == [][\A a \in 1..Len(pend) : (pend'[a] # pend[a]) => (phase \in {"behaviors", "termination"})]_vars
 WeightsAreProbabilities == \A i \in 1..Len(ws) : ws[i][1] > 0 /\ ws[i][1] <= ws[i][2]
 StepBound == t <= C.maxSteps + 1
 
